@@ -210,10 +210,13 @@ type Ctx struct {
 	quiet    int // >0 while evaluating spec expressions: no obligations, no assumptions
 	revealed map[string]bool
 	revealedApp map[string]Term
+	appArgs     map[string][]Term // opaque-application constant -> its argument terms
+	appOrder    []string
 	symOfConst  map[string]string
 	storeInfo map[string]accessInfo
 	selInfo   map[string]accessInfo
 	iteInfo   map[string]iteInfoT
+	iteBV     map[string]iteInfoT
 	constInfo map[string]Term
 	axioms   []Axiom
 	tables   map[string]*Table
@@ -224,8 +227,8 @@ type Ctx struct {
 }
 
 func newCtx() *Ctx {
-	return &Ctx{defIdx: map[string]*Def{}, memo: map[string]Term{}, strLits: map[string]Term{}, initial: map[string]Term{}, counters: map[string]int{}, tables: map[string]*Table{}, revealed: map[string]bool{}, revealedApp: map[string]Term{}, symOfConst: map[string]string{},
-		storeInfo: map[string]accessInfo{}, selInfo: map[string]accessInfo{}, iteInfo: map[string]iteInfoT{}, constInfo: map[string]Term{}}
+	return &Ctx{defIdx: map[string]*Def{}, memo: map[string]Term{}, strLits: map[string]Term{}, initial: map[string]Term{}, counters: map[string]int{}, tables: map[string]*Table{}, revealed: map[string]bool{}, revealedApp: map[string]Term{}, appArgs: map[string][]Term{}, symOfConst: map[string]string{},
+		storeInfo: map[string]accessInfo{}, selInfo: map[string]accessInfo{}, iteInfo: map[string]iteInfoT{}, iteBV: map[string]iteInfoT{}, constInfo: map[string]Term{}}
 }
 
 var nameRe = regexp.MustCompile(`\bk[0-9]+_[A-Za-z0-9_.]*|\bv[0-9]+\b|\b[hgs]_[A-Za-z0-9_.$]+`)
@@ -482,6 +485,8 @@ func (c *Ctx) ite(cond, a, b Term) Term {
 	t := c.app(a.Sort, "ite", cond, a, b)
 	if a.Sort.K == SArray {
 		c.iteInfo[t.S] = iteInfoT{cond, a, b}
+	} else if a.Sort.K == SBV {
+		c.iteBV[t.S] = iteInfoT{cond, a, b}
 	}
 	return t
 }
@@ -534,9 +539,7 @@ func (c *Ctx) sel(a, i Term) Term {
 			}
 		case strings.HasPrefix(d.Body, "(ite "):
 			if info, ok := c.iteInfo[a.S]; ok {
-				if _, lit := litValue(i); lit {
-					return c.ite(info.cond, c.sel(info.a, i), c.sel(info.b, i))
-				}
+				return c.ite(info.cond, c.sel(info.a, i), c.sel(info.b, i))
 			}
 		case strings.HasPrefix(d.Body, "((as const "):
 			if v, ok := c.constInfo[a.S]; ok {
@@ -737,6 +740,29 @@ func (c *Ctx) emitMany(os []*Oblig, allAxioms bool) (string, bool) {
 			visitG(e.S)
 		}
 	}
+	// also relevant: definitions of applications one of whose arguments occurs in the goal's cone,
+	// unless that argument is shared by the applications of many different symbols (e.g. the board)
+	if !allAxioms {
+		argSyms := map[string]map[string]bool{}
+		for _, a := range c.axioms {
+			for _, arg := range c.appArgs[a.App] {
+				if argSyms[arg.S] == nil {
+					argSyms[arg.S] = map[string]bool{}
+				}
+				argSyms[arg.S][a.Sym] = true
+			}
+		}
+		for _, a := range c.axioms {
+			if goalSyms[a.Sym] || !need[a.App] {
+				continue
+			}
+			for _, arg := range c.appArgs[a.App] {
+				if seenG[arg.S] && len(argSyms[arg.S]) <= 3 {
+					goalSyms[a.Sym] = true
+				}
+			}
+		}
+	}
 	usedAx := make([]bool, len(c.axioms))
 	for changed := true; changed; {
 		changed = false
@@ -747,6 +773,41 @@ func (c *Ctx) emitMany(os []*Oblig, allAxioms bool) (string, bool) {
 				hyps = append(hyps, a.T)
 				visit(a.T.S)
 				visitG(a.T.S)
+			}
+		}
+	}
+	// congruence between opaque applications of the same function (they are constants keyed by
+	// the syntax of their arguments): equal arguments give equal values.  Only for applications
+	// that occur in this query, and only for symbols with few applications.
+	var congr []string
+	bySym := map[string][]string{}
+	for _, nm := range c.appOrder {
+		if need[nm] {
+			bySym[c.symOfConst[nm]] = append(bySym[c.symOfConst[nm]], nm)
+		}
+	}
+	for _, apps := range bySym {
+		if len(apps) < 2 || len(apps) > 10 {
+			continue
+		}
+		for i := 0; i < len(apps); i++ {
+			for j := i + 1; j < len(apps); j++ {
+				a1, a2 := c.appArgs[apps[i]], c.appArgs[apps[j]]
+				if len(a1) != len(a2) {
+					continue
+				}
+				var eqs []string
+				for k := range a1 {
+					if a1[k].S != a2[k].S {
+						eqs = append(eqs, fmt.Sprintf("(= %s %s)", a1[k].S, a2[k].S))
+						visit(a1[k].S)
+						visit(a2[k].S)
+					}
+				}
+				if len(eqs) == 0 {
+					continue
+				}
+				congr = append(congr, fmt.Sprintf("(=> (and %s true) (= %s %s))", strings.Join(eqs, " "), apps[i], apps[j]))
 			}
 		}
 	}
@@ -786,6 +847,9 @@ func (c *Ctx) emitMany(os []*Oblig, allAxioms bool) (string, bool) {
 		sort.Strings(lits)
 		fmt.Fprintf(&b, "(assert (distinct %s))\n", strings.Join(lits, " "))
 	}
+	for _, cg := range congr {
+		fmt.Fprintf(&b, "(assert %s)\n", cg)
+	}
 	seenH := map[string]bool{}
 	for _, h := range hyps {
 		if seenH[h.S] {
@@ -807,4 +871,28 @@ func (c *Ctx) emitMany(os []*Oblig, allAxioms bool) (string, bool) {
 		}
 	}
 	return b.String(), dropped
+}
+
+// mapLitIte applies f to the literal leaves of an if-then-else tree of bit-vector literals;
+// ok=false when some leaf is not a literal
+func (c *Ctx) mapLitIte(t Term, f func(*big.Int) Term, depth int) (Term, bool) {
+	if v, ok := litValue(t); ok {
+		return f(v), true
+	}
+	if depth > 24 {
+		return Term{}, false
+	}
+	info, ok := c.iteBV[t.S]
+	if !ok {
+		return Term{}, false
+	}
+	a, ok1 := c.mapLitIte(info.a, f, depth+1)
+	if !ok1 {
+		return Term{}, false
+	}
+	b, ok2 := c.mapLitIte(info.b, f, depth+1)
+	if !ok2 {
+		return Term{}, false
+	}
+	return c.ite(info.cond, a, b), true
 }
